@@ -9,7 +9,9 @@ transformed block footprints (shapely).
 -/
 import FemtoVerif.Proofs.TreeLemmas
 import FemtoVerif.Model.TrenchProg
+import FemtoVerif.Gen.Data
 import Mathlib.Tactic.Linarith
+import Mathlib.Tactic.Set
 import Mathlib.Tactic.Ring
 import Mathlib.Tactic.FieldSimp
 import Mathlib.Algebra.Order.Field.Rat
@@ -18,7 +20,7 @@ set_option linter.unusedSimpArgs false
 set_option linter.unusedVariables false
 
 namespace Femto.C06
-open Femto.Ctl Femto.TP
+open Femto.Ctl Femto.TP Femto.Gc
 
 /-! ### shutter discipline -/
 
@@ -166,6 +168,339 @@ theorem schedule_length (h zoff dz : ℚ) (nboxz : ℕ) : (schedule h zoff dz nb
   induction nboxz with
   | zero => simp
   | succ n ih => simp [List.range_succ, List.flatMap_append, ih]; ring
+
+
+/-! ### the compile-side model of the call file (`Model/TrenchProg.lean`, `farcallFile`) is disciplined for every column
+
+The model is compared instruction by instruction with the real `FARCALLnnn.pgm` of every plain column on every run (`c06.farcall`);
+these theorems are about that model: whatever the number of levels and trenches, the `u` list, the pauses, the transformation. -/
+
+theorem discStmts_append (leaf : String → Bool) (s : Bool) (a b : List Stmt) :
+    discStmts leaf s (a ++ b) = (discStmts leaf s a).bind fun s' => discStmts leaf s' b := by
+  induction a generalizing s with
+  | nil => simp [discStmts]
+  | cons st a ih =>
+    simp only [List.cons_append, discStmts]
+    cases discStmt leaf s st with
+    | none => simp
+    | some s' => simp [ih]
+
+/-- a compile step that takes the shutter from `s` to `s'` on both sides: if the compiler believes `s` and the step succeeds,
+the emitted statements are disciplined from `s`, end in `s'`, and the compiler believes `s'` -/
+def Takes (leaf : String → Bool) (s s' : Bool) (f : CS → Res) : Prop :=
+  ∀ cs : CS, cs.shutterOn = s → (f cs).err = none → discStmts leaf s (f cs).out = some s' ∧ (f cs).cs.shutterOn = s'
+
+theorem Takes.andThen {leaf : String → Bool} {s s1 s2 : Bool} {f g : CS → Res} (hf : Takes leaf s s1 f) (hg : Takes leaf s1 s2 g) :
+    Takes leaf s s2 (fun cs => (f cs).andThen g) := by
+  intro cs hcs herr
+  simp only [Res.andThen] at herr ⊢
+  cases he : (f cs).err with
+  | some e => rw [he] at herr; simp only at herr; rw [he] at herr; cases herr
+  | none =>
+    rw [he] at herr
+    simp only at herr ⊢
+    obtain ⟨a1, a2⟩ := hf cs hcs he
+    obtain ⟨b1, b2⟩ := hg (f cs).cs a2 herr
+    exact ⟨by rw [discStmts_append, a1]; exact b1, b2⟩
+
+theorem takes_ofOut_quiet (leaf : String → Bool) (s : Bool) (f : CS → Out)
+    (h : ∀ cs, discStmts leaf s (f cs).1 = some s ∧ (f cs).2.shutterOn = cs.shutterOn) :
+    Takes leaf s s (fun cs => Res.ofOut (f cs)) := by
+  intro cs hcs _
+  exact ⟨(h cs).1, by simp [Res.ofOut, (h cs).2, hcs]⟩
+
+
+theorem discStmts_emit_quiet (leaf : String → Bool) (s : Bool) (is : List Instr) (h : ∀ i ∈ is, discAtom leaf s i = some s) :
+    discStmts leaf s (emit is) = some s := by
+  induction is with
+  | nil => simp [emit, discStmts]
+  | cons i is ih =>
+    have h1 := h i (by simp)
+    have h2 := ih (fun j hj => h j (by simp [hj]))
+    simp only [emit, List.map_cons, discStmts, discStmt, h1] at h2 ⊢
+    exact h2
+
+theorem takes_instr (leaf : String → Bool) (s : Bool) (is : List Instr) (h : ∀ i ∈ is, discAtom leaf s i = some s) :
+    Takes leaf s s (instrR is) := by
+  intro cs hcs _
+  exact ⟨discStmts_emit_quiet leaf s is h, hcs⟩
+
+theorem takes_comment (leaf : String → Bool) (s : Bool) (b : Bool) : Takes leaf s s (fun cs => Res.ofOut (comment b cs)) := by
+  intro cs hcs _
+  unfold comment
+  cases b <;> exact ⟨discStmts_emit_quiet leaf s _ (by intro i hi; simp at hi; rcases hi with rfl | rfl <;> rfl), hcs⟩
+
+theorem takes_dwell (leaf : String → Bool) (s : Bool) (p : Option Rat) : Takes leaf s s (dwellR p) := by
+  intro cs hcs _
+  unfold dwellR dwell
+  cases p with
+  | none => exact ⟨rfl, hcs⟩
+  | some t =>
+    by_cases h : t = 0
+    · simp only [h, if_true]; exact ⟨rfl, hcs⟩
+    · simp only [h, if_false, Res.ofOut]
+      exact ⟨discStmts_emit_quiet leaf s _ (by intro i hi; simp at hi; subst hi; rfl), hcs⟩
+
+theorem takes_shutter (leaf : String → Bool) (cfg : Cfg) (s on : Bool) : Takes leaf s on (shutterR cfg on) := by
+  intro cs hcs _
+  unfold shutterR shutter
+  cases on <;> cases s <;> simp [hcs, Res.ofOut, emit, discStmts, discStmt, discAtom]
+
+theorem takes_load (leaf : String → Bool) (s : Bool) (p : String) (t : Nat) : Takes leaf s s (loadOp p t) := by
+  intro cs hcs herr
+  unfold loadOp at herr ⊢
+  split
+  · exact ⟨rfl, hcs⟩
+  · exact ⟨discStmts_emit_quiet leaf s _ (by intro i hi; simp at hi; subst hi; rfl), hcs⟩
+
+theorem takes_remove (leaf : String → Bool) (s : Bool) (p : String) (t : Nat) : Takes leaf s s (removeOp p t) := by
+  intro cs hcs herr
+  unfold removeOp at herr ⊢
+  split
+  · exact ⟨rfl, hcs⟩
+  · split
+    · exact ⟨rfl, hcs⟩
+    · exact ⟨discStmts_emit_quiet leaf s _ (by intro i hi; simp at hi; rcases hi with rfl | rfl | rfl <;> rfl), hcs⟩
+
+theorem takes_farcall (leaf : String → Bool) (cfg : Cfg) (s : Bool) (p : String) (hl : leaf (progKey p) = true) :
+    Takes leaf s s (farcallOp cfg p) := by
+  intro cs hcs herr
+  unfold farcallOp at herr ⊢
+  split
+  · exact ⟨rfl, hcs⟩
+  · split
+    · exact ⟨rfl, hcs⟩
+    · simp only [Res.ofOut, seq]
+      obtain ⟨d1, d2⟩ := takes_dwell leaf s cfg.shortPause cs hcs rfl
+      simp only [dwellR, Res.ofOut] at d1 d2
+      refine ⟨?_, d2⟩
+      rw [discStmts_append, d1]
+      exact discStmts_emit_quiet leaf s _ (by intro i hi; simp at hi; subst hi; simp [discAtom, hl])
+
+theorem takes_uMove (leaf : String → Bool) (cfg : Cfg) (s : Bool) (u : Option Rat) (pause : Bool) : Takes leaf s s (uMove cfg u pause) := by
+  unfold uMove
+  cases u with
+  | none => intro cs hcs _; exact ⟨rfl, hcs⟩
+  | some v =>
+    have hg : Takes leaf s s (instrR [g1U v]) :=
+      takes_instr leaf s _ (by intro i hi; simp at hi; subst hi; simp [g1U, discAtom, G1W.xy])
+    cases pause
+    · simpa using hg
+    · simpa using Takes.andThen hg (takes_dwell leaf s cfg.longPause)
+
+theorem moveTo_disc (leaf : String → Bool) (cfg : Cfg) (x y z sp : Option Rat) (cs : CS) (hcs : cs.shutterOn = false) :
+    discStmts leaf false (moveTo cfg x y z sp cs).1.1 = some false ∧ (moveTo cfg x y z sp cs).1.2.shutterOn = false := by
+  unfold moveTo closeIfOpen
+  cases hf : formatArgs cfg.digits x y z (some (sp.getD cfg.speedPos)) with
+  | error e => simp only [hcs, Bool.false_eq_true, if_false]; exact ⟨rfl, trivial⟩
+  | ok w =>
+    simp only [hcs, Bool.false_eq_true, if_false, seq, List.nil_append]
+    obtain ⟨d1, d2⟩ := takes_dwell leaf false cfg.longPause cs hcs rfl
+    simp only [dwellR, Res.ofOut] at d1 d2
+    refine ⟨?_, d2⟩
+    rw [discStmts_append, discStmts_emit_quiet leaf false [.g1 w] (by intro i hi; simp at hi; subst hi; simp [discAtom])]
+    simp only [Option.bind_some]
+    rw [discStmts_append, d1]
+    exact discStmts_emit_quiet leaf false _ (by intro i hi; simp at hi; subst hi; rfl)
+
+theorem takes_moveTo (leaf : String → Bool) (cfg : Cfg) (x y z sp : Option Rat) : Takes leaf false false (moveToR cfg x y z sp) := by
+  intro cs hcs _
+  exact moveTo_disc leaf cfg x y z sp cs hcs
+
+/-- the wall loop keeps the shutter open across its turns: its body calls a leaf program, bumps `$ZCURR` and moves in z only -/
+theorem takes_wallLoop (leaf : String → Bool) (cfg : Cfg) (c : Col) (i : Nat) (hl : leaf (progKey (wallName i)) = true) :
+    Takes leaf true true (wallLoop cfg c i) := by
+  intro cs hcs herr
+  unfold wallLoop at herr ⊢
+  generalize fmt 6 (c.deltaz / cfg.neff) = q at herr ⊢
+  by_cases hn : c.nRep ≤ 0
+  · simp only [hn, if_true]; exact ⟨rfl, hcs⟩
+  · simp only [hn, if_false] at herr ⊢
+    have hb : Takes leaf true true (fun cs => (farcallOp cfg (wallName i) cs).andThen
+        (instrR [.incVar "zcurr" q, .g1 { zvar := some "ZCURR" }])) :=
+      Takes.andThen (takes_farcall leaf cfg true _ hl)
+        (takes_instr leaf true _ (by intro j hj; simp at hj; rcases hj with rfl | rfl <;> simp [discAtom, G1W.xy]))
+    obtain ⟨b1, b2⟩ := hb cs hcs herr
+    dsimp only at b1 b2
+    constructor
+    · simp only [discStmts, discStmt, b1, if_true, discAtom]
+    · exact b2
+
+/-- **one (level, trench) block of the call file is disciplined**: compiled with the shutter believed closed, whenever it
+compiles without error it moves in x / y only with the shutter closed, opens it exactly around the wall loop and around the
+floor call — both calls of leaf programs —, and ends closed, for every configuration, column, level and trench -/
+theorem trenchBlock_disciplined (leaf : String → Bool) (cfg : Cfg) (c : Col) (nbox i : Nat) (xy : Rat × Rat)
+    (hw : leaf (progKey (wallName i)) = true) (hf : leaf (progKey (floorName i)) = true) :
+    Takes leaf false false (trenchBlock cfg c nbox i xy) := by
+  unfold trenchBlock
+  exact
+    Takes.andThen (Takes.andThen (Takes.andThen (Takes.andThen (Takes.andThen (Takes.andThen (Takes.andThen (Takes.andThen
+    (Takes.andThen (Takes.andThen (Takes.andThen (Takes.andThen (Takes.andThen (Takes.andThen (Takes.andThen (Takes.andThen
+      (takes_comment leaf false true)
+      (takes_load leaf false _ 2))
+      (takes_instr leaf false [.msg] (by intro j hj; simp at hj; subst hj; rfl)))
+      (takes_shutter leaf cfg false false))
+      (takes_uMove leaf cfg false _ true))
+      (takes_moveTo leaf cfg _ _ _ _))
+      (takes_instr leaf false _ (by intro j hj; simp at hj; subst hj; rfl)))
+      (takes_shutter leaf cfg false true))
+      (takes_wallLoop leaf cfg c i hw))
+      (takes_remove leaf true _ 2))
+      (takes_shutter leaf cfg true false))
+      (takes_load leaf false _ 2))
+      (takes_instr leaf false [.msg] (by intro j hj; simp at hj; subst hj; rfl)))
+      (takes_uMove leaf cfg false _ true))
+      (takes_shutter leaf cfg false true))
+      (takes_farcall leaf cfg true _ hf))
+      (Takes.andThen (Takes.andThen (takes_shutter leaf cfg true false) (takes_uMove leaf cfg false _ false)) (takes_remove leaf false _ 2))
+
+
+/-- every block of a column, one after the other -/
+theorem blocksFrom_disciplined (leaf : String → Bool) (cfg : Cfg) (c : Col)
+    (hw : ∀ i, leaf (progKey (wallName i)) = true) (hf : ∀ i, leaf (progKey (floorName i)) = true)
+    (l : List (Nat × Nat × (Rat × Rat))) : Takes leaf false false (blocksFrom cfg c l) := by
+  induction l with
+  | nil => intro cs hcs _; exact ⟨rfl, hcs⟩
+  | cons b l ih =>
+    obtain ⟨nbox, i, xy⟩ := b
+    exact Takes.andThen (trenchBlock_disciplined leaf cfg c nbox i xy (hw i) (hf i)) ih
+
+/-- **the body of the call file is disciplined** for every column (any number of levels and trenches, with or without `u`),
+every configuration and every pause setting -/
+theorem farcallBody_disciplined (leaf : String → Bool) (cfg : Cfg) (c : Col)
+    (hw : ∀ i, leaf (progKey (wallName i)) = true) (hf : ∀ i, leaf (progKey (floorName i)) = true) :
+    Takes leaf false false (farcallBody cfg c) := by
+  unfold farcallBody
+  have hd : Takes leaf false false (fun cs : CS =>
+      ({ pre := emit [.dvar ["zcurr"], .blank], cs := { cs with dvars := cs.dvars ++ ["zcurr"] } } : Res)) := by
+    intro cs hcs _; exact ⟨rfl, hcs⟩
+  exact Takes.andThen (Takes.andThen hd (blocksFrom_disciplined leaf cfg c hw hf _))
+    (takes_instr leaf false [.msg] (by intro j hj; simp at hj; subst hj; rfl))
+
+
+
+/-! the hoisted lines: only `dvar` puts anything before the header -/
+
+def NoPre (f : CS → Res) : Prop := ∀ cs, (f cs).pre = []
+
+theorem NoPre.andThen {f g : CS → Res} (hf : NoPre f) (hg : NoPre g) : NoPre (fun cs => (f cs).andThen g) := by
+  intro cs
+  simp only [Res.andThen]
+  cases (f cs).err with
+  | some e => exact hf cs
+  | none => simp [hf cs, hg (f cs).cs]
+
+theorem noPre_instr (is : List Instr) : NoPre (instrR is) := fun _ => rfl
+theorem noPre_comment (b : Bool) : NoPre (fun cs => Res.ofOut (comment b cs)) := fun _ => rfl
+theorem noPre_shutter (cfg : Cfg) (on : Bool) : NoPre (shutterR cfg on) := fun _ => rfl
+theorem noPre_dwell (p : Option Rat) : NoPre (dwellR p) := fun _ => rfl
+theorem noPre_moveTo (cfg : Cfg) (x y z sp : Option Rat) : NoPre (moveToR cfg x y z sp) := fun _ => rfl
+theorem noPre_load (p : String) (t : Nat) : NoPre (loadOp p t) := by intro cs; unfold loadOp; split <;> rfl
+theorem noPre_remove (p : String) (t : Nat) : NoPre (removeOp p t) := by
+  intro cs; unfold removeOp; split
+  · rfl
+  · split <;> rfl
+theorem noPre_farcall (cfg : Cfg) (p : String) : NoPre (farcallOp cfg p) := by
+  intro cs; unfold farcallOp; split
+  · rfl
+  · split <;> rfl
+theorem noPre_uMove (cfg : Cfg) (u : Option Rat) (pause : Bool) : NoPre (uMove cfg u pause) := by
+  unfold uMove
+  cases u with
+  | none => exact fun _ => rfl
+  | some v =>
+    cases pause
+    · simpa using noPre_instr [g1U v]
+    · simpa using NoPre.andThen (noPre_instr [g1U v]) (noPre_dwell cfg.longPause)
+theorem noPre_wallLoop (cfg : Cfg) (c : Col) (i : Nat) : NoPre (wallLoop cfg c i) := by
+  intro cs
+  unfold wallLoop
+  generalize fmt 6 (c.deltaz / cfg.neff) = q
+  by_cases hn : c.nRep ≤ 0
+  · simp only [hn, if_true]
+  · simp only [hn, if_false]
+    have := NoPre.andThen (noPre_farcall cfg (wallName i)) (noPre_instr [.incVar "zcurr" q, .g1 { zvar := some "ZCURR" }]) cs
+    dsimp only at this
+    exact this
+
+theorem noPre_trenchBlock (cfg : Cfg) (c : Col) (nbox i : Nat) (xy : Rat × Rat) : NoPre (trenchBlock cfg c nbox i xy) := by
+  unfold trenchBlock
+  exact
+    NoPre.andThen (NoPre.andThen (NoPre.andThen (NoPre.andThen (NoPre.andThen (NoPre.andThen (NoPre.andThen (NoPre.andThen
+    (NoPre.andThen (NoPre.andThen (NoPre.andThen (NoPre.andThen (NoPre.andThen (NoPre.andThen (NoPre.andThen (NoPre.andThen
+      (noPre_comment true) (noPre_load _ 2)) (noPre_instr _)) (noPre_shutter cfg false)) (noPre_uMove cfg _ true))
+      (noPre_moveTo cfg _ _ _ _)) (noPre_instr _)) (noPre_shutter cfg true)) (noPre_wallLoop cfg c i)) (noPre_remove _ 2))
+      (noPre_shutter cfg false)) (noPre_load _ 2)) (noPre_instr _)) (noPre_uMove cfg _ true)) (noPre_shutter cfg true))
+      (noPre_farcall cfg _))
+      (NoPre.andThen (NoPre.andThen (noPre_shutter cfg false) (noPre_uMove cfg _ false)) (noPre_remove _ 2))
+
+theorem noPre_blocksFrom (cfg : Cfg) (c : Col) (l : List (Nat × Nat × (Rat × Rat))) : NoPre (blocksFrom cfg c l) := by
+  induction l with
+  | nil => exact fun _ => rfl
+  | cons b l ih => obtain ⟨nbox, i, xy⟩ := b; exact NoPre.andThen (noPre_trenchBlock cfg c nbox i xy) ih
+
+/-- the only hoisted lines of the call file are the declaration of `$ZCURR` -/
+theorem farcallBody_pre (cfg : Cfg) (c : Col) (cs : CS) : (farcallBody cfg c cs).pre = emit [.dvar ["zcurr"], .blank] := by
+  unfold farcallBody
+  simp only [Res.andThen]
+  have hb := noPre_blocksFrom cfg c (blockList c) { cs with dvars := cs.dvars ++ ["zcurr"] }
+  cases he : (blocksFrom cfg c (blockList c) { cs with dvars := cs.dvars ++ ["zcurr"] }).err with
+  | some e => simp [he, hb]
+  | none => simp [he, hb, instrR, Res.ofOut]
+
+/-- **the whole call file is a disciplined calling file** (`Ctl.disciplined`, the hypothesis of `tree_discipline` /
+`run_discipline` for every non-leaf file of an exported tree): for every configuration without a session-wide rotation whose
+header is disciplined from a closed shutter, every column whose wall and floor programs are leaves of the tree, whenever the
+body compiles without error — header, `DVAR $ZCURR`, all (level, trench) blocks, `MSGCLEAR`, optional homing move -/
+theorem farcallFile_disciplined (leaf : String → Bool) (cfg : Cfg) (c : Col) (hrot : cfg.aeroAngle = 0)
+    (hh : discStmts leaf false (emit cfg.header) = some false)
+    (hw : ∀ i, leaf (progKey (wallName i)) = true) (hf : ∀ i, leaf (progKey (floorName i)) = true)
+    (hok : (farcallBody cfg c (seq (seq (emit (cfg.header ++ [.blank]), ({} : CS)) (dwell (some 1))) fun cs => (emit [.blank], cs)).2).err = none) :
+    disciplined leaf (farcallFile cfg c).1 = true := by
+  set hd : Out := seq (seq (emit (cfg.header ++ [.blank]), ({} : CS)) (dwell (some 1))) fun cs => (emit [.blank], cs) with hhd
+  have hd2 : hd.2.shutterOn = false := by
+    simp only [hhd, seq]
+    obtain ⟨_, d2⟩ := takes_dwell leaf false (some 1) ({} : CS) rfl rfl
+    simpa [dwellR, Res.ofOut] using d2
+  have hd1 : discStmts leaf false hd.1 = some false := by
+    simp only [hhd, seq]
+    obtain ⟨d1, _⟩ := takes_dwell leaf false (some 1) ({} : CS) rfl rfl
+    simp only [dwellR, Res.ofOut] at d1
+    have e : emit (cfg.header ++ [Instr.blank]) = emit cfg.header ++ emit [.blank] := by simp [emit]
+    rw [discStmts_append, discStmts_append, e, discStmts_append, hh]
+    simp only [Option.bind_some]
+    rw [discStmts_emit_quiet leaf false [.blank] (by intro i hi; simp at hi; subst hi; rfl)]
+    simp only [Option.bind_some, d1]
+    exact discStmts_emit_quiet leaf false [.blank] (by intro i hi; simp at hi; subst hi; rfl)
+  obtain ⟨b1, b2⟩ := farcallBody_disciplined leaf cfg c hw hf hd.2 hd2 hok
+  have hpre : discStmts leaf false (farcallBody cfg c hd.2).pre = some false := by
+    have : (farcallBody cfg c hd.2).pre = emit [.dvar ["zcurr"], .blank] := farcallBody_pre cfg c hd.2
+    rw [this]
+    exact discStmts_emit_quiet leaf false _ (by intro i hi; simp at hi; rcases hi with rfl | rfl <;> rfl)
+  unfold disciplined farcallFile sessionWith
+  simp only [hrot, if_true, ← hhd]
+  have hg : discStmts leaf false (if cfg.home = true then
+        ((moveTo cfg (some (-2)) (some 0) (some 0) none (farcallBody cfg c hd.2).cs).1.1,
+          (moveTo cfg (some (-2)) (some 0) (some 0) none (farcallBody cfg c hd.2).cs).1.2)
+      else (([] : List Stmt), (farcallBody cfg c hd.2).cs)).1 = some false := by
+    split
+    · exact (moveTo_disc leaf cfg _ _ _ _ _ b2).1
+    · rfl
+  rw [discStmts_append, discStmts_append, discStmts_append, discStmts_append, hpre]
+  simp only [Option.bind_some, hd1, b1, discStmts, hg]
+  rfl
+
+
+/-- the shipped headers are disciplined from a closed shutter, whatever the tree's leaves are (regenerated data, every run) -/
+theorem shipped_headers_disciplined : ∀ h ∈ Femto.Gen.headers, ∀ b : Bool,
+    discStmts (fun _ => b) false (emit h.2.2) = some false := by decide
+
+/-- non-vacuity: a column with two levels, two trenches and a `u` list under a mirrored configuration compiles without error
+into a disciplined file (evaluated by the kernel on the model) -/
+example : (let cfg : Cfg := { header := Femto.Gen.header_uwe, flipX := true, neff := 3/2, shortPause := some (1/20) }
+    let c : Col := { index := 0, nboxz := 2, nRep := 5, baseFolder := "lab", inits := [(1, 2), (1, 3)], hBox := 3/40, zOff := -1/50,
+                     deltaz := 3/2000, speedClosed := 5, u := some (28, 59/2) }
+    (farcallBody cfg c {}).err.isNone && disciplined (fun _ => true) (farcallFile cfg c).1) = true := by decide +kernel
 
 /-- non-vacuity: the default column (h_box 0.075, z_off -0.020, deltaz 0.0015) needs 64 passes per box -/
 example : nRepeat (75/1000) (-20/1000) (15/10000) = 64 := by decide +kernel
